@@ -28,9 +28,12 @@ import (
 	"google.golang.org/grpc/status"
 	"google.golang.org/protobuf/proto"
 
+	"github.com/buildbarn/bb-storage/pkg/blobstore/buffer"
+
 	"verifh/ev"
 	"verifh/lstore"
 	"verifh/mc"
+	"verifh/sim"
 )
 
 func failf(sig, format string, a ...any) { vsched.Fail(sig, format, a...) }
@@ -41,12 +44,48 @@ type obj struct {
 	off   int // offset of its bytes on the data device
 }
 
+type qlog struct {
+	n        int // "Releasing n blocks"
+	releases int // blocks physically released when it was logged
+	at       int // logical time
+}
+
 type world struct {
-	s    *lstore.Store
-	objs []*obj
-	q    int // newest absolute block with detected corruption
-	ac   bool
+	s       *lstore.Store
+	objs    []*obj
+	q       int // newest absolute block with detected corruption
+	ac      bool
 	logSeen int
+	qlogs   []qlog
+	clock   int
+	level   int // quarantine level (absolute number of blocks that must be gone) after the last detection
+}
+
+func (w *world) tick() int { w.clock++; return w.clock }
+
+func (w *world) hook() {
+	w.s.Errors.Hook = func(msg string) {
+		var n int
+		if _, err := fmt.Sscanf(msg, "rpc error: code = Internal desc = Releasing %d blocks", &n); err == nil {
+			w.qlogs = append(w.qlogs, qlog{n: n, releases: w.s.Alloc.Releases, at: w.tick()})
+		}
+	}
+}
+
+// checkExtent: a detection in absolute block b must raise the quarantine level to exactly b+1.
+func (w *world) checkExtent(b int, where string) {
+	if len(w.qlogs) == 0 {
+		return
+	}
+	l := w.qlogs[len(w.qlogs)-1]
+	old := l.releases
+	if w.level > old {
+		old = w.level
+	}
+	if l.n+old != b+1 {
+		failf("quarantine-extent-wrong", "%s: corruption was detected in absolute block %d, so blocks 0..%d must be discarded; the store announced the release of %d blocks on top of %d already gone, i.e. blocks 0..%d", where, b, b, l.n, old, l.n+old-1)
+	}
+	w.level = l.n + old
 }
 
 func (w *world) key(d digest.Digest) local.Key {
@@ -103,6 +142,7 @@ func acObj(name string, n int, val []byte) *obj {
 
 func newWorld(g lstore.Geometry) *world {
 	w := &world{s: lstore.Open(g, lstore.NewMedia(g)), q: -1, ac: g.AC}
+	w.hook()
 	if g.AC {
 		for i := 0; i < 6; i++ {
 			m := &remoteexecution.ActionResult{ExitCode: int32(i + 1), StdoutRaw: []byte(fmt.Sprintf("o%d", i))}
@@ -185,6 +225,7 @@ func (w *world) get(o *obj, where string) {
 		if w.logSeen != logsBefore+1 {
 			failf("release-not-logged-once", "%s: detection in block %d produced %d ErrorLogger messages (want exactly 1)", where, o.block, w.logSeen-logsBefore)
 		}
+		w.checkExtent(o.block, where)
 		vsched.Mark()
 	default:
 		if err != nil {
@@ -361,15 +402,29 @@ func (w *world) corruptedUnparsable(o *obj) bool {
 func concBody(g lstore.Geometry, variant int) func() {
 	return func() {
 		w := newWorld(g)
-		// x = newest object (in the block that still accepts uploads)
-		x := w.objs[len(w.objs)-1]
+		// x = an object in the newest block, the one that still accepts uploads (U4 fits into it)
+		x := w.objs[0]
+		for _, o := range w.objs {
+			if o.block >= x.block {
+				x = o
+			}
+		}
 		if variant == 2 {
 			x = w.objs[0] // oldest block: detection racing a rotation
 		}
+		if variant == 3 {
+			// a middle block: newer blocks exist and must survive, older ones rotate away meanwhile
+			for _, o := range w.objs {
+				if o.block == 1 {
+					x = o
+				}
+			}
+		}
 		w.corrupt(x.off, len(x.Content))
 		bx := x.block
-		up := casObj("U4", "uuuu")
+		up := casObj("U4", "uXYz")
 		var upErr error
+		lastUploadRead, uploadReturned := 0, 0
 		var wg vsync.WaitGroup
 		run := func(name string, f func()) {
 			wg.Add(1)
@@ -386,13 +441,15 @@ func concBody(g lstore.Geometry, variant int) func() {
 			}
 		})
 		run("upload", func() {
-			var src interface{}
-			upErr, src = w.s.Put(up.Digest, lstore.PutSpec{Chunks: [][]byte{[]byte("uu"), []byte("uu")}, Gate: true})
-			_ = src
+			src := sim.NewSource(sim.Script{Chunks: [][]byte{up.Content[:2], up.Content[2:]}})
+			src.Gate = func() { vsched.Yield("upload.Read"); lastUploadRead = w.tick() }
+			upErr = w.s.BA.Put(context.Background(), up.Digest, buffer.NewCASBufferFromReader(up.Digest, sim.ReaderView{S: src}, buffer.UserProvided))
+			uploadReturned = w.tick()
 			vsched.Obs("upload=%s", status.Code(upErr))
 		})
 		other := w.objs[len(w.objs)-2]
-		run("reader", func() {
+		if variant == 0 {
+			run("reader", func() {
 			d, err := w.s.Get(other.Digest)
 			vsched.Obs("reader=%s", status.Code(err))
 			if err == nil && !bytes.Equal(d, other.Content) {
@@ -401,15 +458,35 @@ func concBody(g lstore.Geometry, variant int) func() {
 			if err != nil && status.Code(err) != codes.NotFound {
 				failf("unaffected-object-error-"+status.Code(err).String(), "concurrent Get(%s) failed with %v", other.Name, err)
 			}
-		})
+			})
+		}
 		if variant >= 1 {
 			run("rotate", func() {
-				f := casObj("R16", "rotate-rotate-16")
-				err := w.put(f)
-				vsched.Obs("rotate=%s", status.Code(err))
+				for i := 0; i < 3; i++ {
+					f := casObj("R16", fmt.Sprintf("rotate-rotate-%02d", i))
+					err := w.put(f)
+					vsched.Obs("rotate%d=%s", i, status.Code(err))
+				}
 			})
 		}
 		wg.Wait()
+		// The detection must not take healthy newer blocks with it: rotation only ever drops the oldest
+		// blocks and keeps at least the newest old+current+new ones, so an object that sat in a block newer
+		// than x's and inside that window must still be resolvable (it may have been refreshed, never lost).
+		window := w.s.Alloc.NewBlocks - (g.Old + g.Current + g.New)
+		for _, o := range w.objs {
+			if o.block > bx && o.block >= window && !w.indexHas(o) && w.s.IndexDiscards() == 0 {
+				failf("healthy-newer-block-quarantined", "corruption was detected in absolute block %d; %s sat in the newer block %d, which rotation cannot have dropped yet (%d blocks allocated, the newest %d are kept), but it is no longer resolvable", bx, o.Name, o.block, w.s.Alloc.NewBlocks, g.Old+g.Current+g.New)
+			}
+		}
+		// An upload whose data was still being read when the corruption was detected (so its finalizer ran
+		// afterwards) into a block that got quarantined must fail rather than be acknowledged.
+		if len(w.qlogs) > 0 && upErr == nil && w.qlogs[0].at < lastUploadRead {
+			w.locate()
+			if !w.indexHas(up) {
+				failf("in-flight-upload-into-quarantined-block-acknowledged", "the upload of U4 was still reading its data at logical time %d, after the corruption had been detected at %d; it was acknowledged (returned at %d) although its block was quarantined: the object is not resolvable", lastUploadRead, w.qlogs[0].at, uploadReturned)
+			}
+		}
 		// After everything returned: nothing stored in a block <= bx may be visible.
 		w.q = bx
 		w.objs = append(w.objs, up)
@@ -459,8 +536,8 @@ func main() {
 	scs = append(scs, mc.Scenario{Name: "seq/ac", Space: fmt.Sprintf("AC store (Protobuf validation): 6 ActionResults; every object x every corruption extent that breaks parsing x all sequences of %d follow-up operations on %s", depth, ac), Bound: 0, ShardDepth: 2, Body: seqBody(ac, depth), Budget: time.Duration(ev.Pick(r, 100, 900)) * time.Second})
 	cg := base
 	cg.DataGates = true
-	for v := 0; v < 3; v++ {
-		scs = append(scs, mc.Scenario{Name: fmt.Sprintf("conc/variant%d", v), Space: []string{"detecting Get(x) || upload in flight into x's block || Get(neighbour)", "the same plus a block-sized upload forcing a rotation", "x in the oldest block: detection || upload || reader || rotation"}[v] + " on " + cg.String(), Bound: ev.Pick(r, 2, 3), Body: concBody(cg, v), Budget: time.Duration(ev.Pick(r, 40, 400)) * time.Second})
+	for v := 0; v < 4; v++ {
+		scs = append(scs, mc.Scenario{Name: fmt.Sprintf("conc/variant%d", v), Space: []string{"detecting Get(x) || upload in flight into x's block || Get(neighbour)", "detecting Get(x) || upload in flight into x's block || three block-sized uploads forcing rotations", "x in the oldest block: detection || upload || three block-sized uploads forcing rotations", "x in a middle block: detection || upload || three block-sized uploads forcing rotations"}[v] + " on " + cg.String(), Bound: ev.Pick(r, 2, 3), Body: concBody(cg, v), Budget: time.Duration(ev.Pick(r, 40, 400)) * time.Second})
 	}
 	mc.Run(r, scs)
 	r.Finish()
